@@ -39,6 +39,12 @@ class Construction:
     for i in range(len(strings)-1, 0, -1):
       try:
         tag = gfapy.Field._parse_gfa_tag(strings[i])
+        # which trailing fields are tags does not depend on the validation
+        # level: a field is a tag if it has the syntax of a tag, a valid
+        # value and a name not yet used by a tag after it
+        if tag[0] in tagnames:
+          break
+        gfapy.Field._validate_gfa_field(tag[2], tag[1], tag[0])
         self._initialize_tag(*tag)
       except:
         break
